@@ -249,6 +249,8 @@ class _LegacyRecordBatchPy(LegacyRecordBase, LegacyRecordBatchProtocol):
             # message first to compute the absolute offset.
             headers = self._read_all_headers()
             if self._magic > 0:
+                if not headers:
+                    raise CorruptRecordException("Empty compressed message")
                 msg_header, _ = headers[-1]
                 absolute_base_offset = self._offset - msg_header[0]
             else:
